@@ -186,7 +186,7 @@ def run(chk):
     # ---- the deterministic idiom matrices rewritten by the rules (tools/matrix.py): every block sets its own
     #      operands, the verdict cells r[] of the two spellings must be equal ----
     import matrix
-    for p in matrix.all_programs(["update-then-test", "update-then-loop", "comparisons", "switch"]):
+    for p in matrix.all_programs(["update-then-test", "update-then-loop", "comparisons", "switch", "loop-headers", "wide"]):
         for rule in ('incr', 'opassign', 'cmpswap', 'ifswap', 'forwhile', 'switchif'):
             q = rewrite(p, rule)
             if q.text == p.text:
@@ -216,20 +216,12 @@ def run(chk):
                                   "plain_result": coexec.describe(lay[3], x), "rewritten_result": coexec.describe(lay[3], y)})
                         break
     # ---- idiom sweep: the assignment-form rules on every kind of assignable operand x operator x operand ----
-    DECL = "unsigned char v0, v1; unsigned short s0, s1; unsigned char a0[4]; unsigned short w0[4];\n"
-    LVS = [("v0", 8), ("s0", 16), ("a0[X]", 8), ("a0[Y]", 8), ("a0[2]", 8), ("w0[X]", 16), ("w0[Y]", 16), ("w0[1]", 16), ("X", 8), ("Y", 8)]
-    pairs = []
-    for lv, bits in LVS:
-        for op in ["+", "-", "&", "|", "^"]:
-            for e in (["1", "255", "v1"] if bits == 8 else ["1", "255", "300", "33025", "v1", "s1"]):
-                pairs.append(("opassign", "%s %s= %s;" % (lv, op, e), "%s = %s %s %s;" % (lv, lv, op, e)))
-        pairs.append(("incr", "++%s;" % lv, "%s += 1;" % lv))
-        pairs.append(("incr", "%s++;" % lv, "%s += 1;" % lv))
-        pairs.append(("incr", "--%s;" % lv, "%s -= 1;" % lv))
-        pairs.append(("incr", "%s--;" % lv, "%s -= 1;" % lv))
-    for rule, sa, sb in pairs:
-        pa = DECL + "void main() { %s }\n" % sa
-        pb = DECL + "void main() { %s }\n" % sb
+    import idioms
+    pairs = idioms.pairs()
+    for rule, sa, sb, bits in pairs:
+        pa = idioms.wrap(sa)
+        pb = idioms.wrap(sb)
+        width = "-16bit" if bits == 16 else ""
         for level in (0, 1):
             a = h.compile(pa, level); b = h.compile(pb, level)
             chk.count("idiom_" + rule)
@@ -247,7 +239,7 @@ def run(chk):
             for st, x, y in zip(states, oa, ob):
                 chk.count("idiom_runs")
                 if coexec.observable(x, lay[3]) != coexec.observable(y, lay[3]):
-                    chk.fail("rewrite-" + rule + "-idiom", "`%s` and `%s` end in different states at -O%d" % (sa, sb, level),
+                    chk.fail("rewrite-" + rule + "-idiom" + width, "`%s` and `%s` end in different states at -O%d" % (sa, sb, level),
                              {"plain": pa, "rewritten": pb, "level": level, "rule": rule, "initial": {"x": st["x"], "y": st["y"]},
                               "plain_result": coexec.describe(lay[3], x), "rewritten_result": coexec.describe(lay[3], y)})
                     break
